@@ -1,5 +1,6 @@
 """C10 — result codes and the start pointer follow the protocol: multi-byte feed runs (llsym) vs the abstract machine's consumed count,
 OK => chunk consumed, FAIL absorbing, pointer position per code, yields resume without losing or repeating bytes."""
+import re
 from engines import chk, l3check
 from checks.c06 import consume
 
@@ -10,7 +11,7 @@ def main(tier, replay):
     run = chk.Run(PID, tier, 'model_checking', 'llsym multi-call on emitted <p>_feed/<p>_end vs absm over the chunk; z3')
     L = 2 if tier == 'quick' else 3
     run.functions = ['emitted <p>_feed / <p>_end', 'compiled DFA via absm (consumed-byte count, codes)']
-    run.bounds = {'chunk_bytes': L, 'chunk_bytes_heavy_arithmetic_programs': 2, 'calls': 'chunk driven to completion with re-invocation after each yield (<= N+1), plus one further feed/end after FAIL',
+    run.bounds = {'chunk_bytes': L, 'chunk_bytes_heavy_arithmetic_programs': '2 (programs marked no-multibyte, gtfs-realtime, and every program with a multiplication in a math expression)', 'calls': 'chunk driven to completion with re-invocation after each yield (<= N+1), plus one further feed/end after FAIL',
                   'pre_state': 'every control state (quick: seeded subset for programs > 24 states), all data within Inv'}
     run.assumptions = ['malloc never fails', 'hooks are pure observers', 'DONE leaves *start on the byte being processed ("last byte read")',
                        'strict-done: abstract machine models the postponed DONE (resting on an accepting state returns OK; the next call returns DONE)']
@@ -19,7 +20,9 @@ def main(tier, replay):
     if tier == 'quick':
         jobs = [j for j in jobs if '// verif: no-multibyte' not in j['src'] and 'gtfs-realtime' not in j['label']]   # gtfs: 64-bit shifts by symbolic amounts (thorough tier only)
     for j in jobs:
-        heavy = '// verif: no-multibyte' in j['src'] or 'gtfs-realtime' in j['label']
+        # multiplications in a math expression (decimal accumulation n*10+d) over three symbolic bytes are compared between two differently shaped
+        # renderings here (emitted C vs abstract machine) and do not get decided in the time limits: those programs get 2-byte chunks as well
+        heavy = '// verif: no-multibyte' in j['src'] or 'gtfs-realtime' in j['label'] or re.search(r'\[[^\]]*\*', j['src']) is not None
         # thorough tier: the programs with heavy multi-byte arithmetic are run with 2-byte chunks from a seeded subset of states (3 bytes from every state does not finish in hours)
         j['L'] = 2 if heavy else L
         j['state_budget'] = (24, 8) if tier == 'quick' else ((40, 24) if heavy else (10 ** 6, 60))
